@@ -84,6 +84,15 @@ FIRST = {
     "C15-9": "**missed at first** (C06 / C10 undecided: one flatten class fewer); inherited-reader rule (a subclass with its own constructor must not inherit a reader that names its base) under C06.R5 / C10.R1 and the new C15.R13 - under which the Enum codec of `AWQPackedTensor` became **finding F38**",
     "C16-9": "C07.R2 / C05.R14 / C08.R8 at once; **C16 missed**; C16.R9 added (single-rounding clause and weight-source rule re-checked: inference after calibration)",
     "C16-10": "C02.R9 / C07.R8 / C08.R7 / C09 / C10.R10 at once; **C16 missed**; C16.R9",
+    # round 6 (regressions of recent repairs and of recently added code)
+    "C02-12": "**missed at first** by every property; C14.R6 added (a quantizer that refuses an axis of size one is only reached after quantize_weight has rewritten the axis), re-checked under C02.R10",
+    "C05-12": "C06.R4 / C09.R6 at once; **C05 missed**; the move rules are re-checked under C05.R21 (a dtype move is an operation on the dequantized values)",
+    "C06-12": "**missed at first** (C05 undecided: `tuple(<generator of constructors>)` not read as a sequence of results); the return classifier accepts list / tuple of a comprehension or generator, C06.R1 then reports the size taken from the first chunk",
+    "C10-11": "C08.R9 at once; **C10 missed**; re-checked under C10.R12 (load_state_dict copies INTO the target's buffers, so their dtype decides)",
+    "C10-12": "**missed at first** by every property; C06.R10 added (no QBits constructor / factory call takes size or stride from its grouped payload), re-checked under C10.R13",
+    "C11-12": "**missed at first**: C12 / C03 raised a FALSE alarm (an in-place `buffer.copy_(v)` through a setter procedure was not seen as the store of `v`) and C09 was undecided; the path engine now reports an in-place copy into a scale buffer as the store it is and always expands setter procedures; C11.R10 added (while module outputs alias the scale buffers - C13.R6 - the buffers are replaced, never written in place)",
+    "C12-11": "**missed at first** (C13 undecided: handles kept as one tuple were not recognised); C13.R1 reads tuple-valued handle attributes and has a conditional-registration clause (registration guarded by object state that __exit__ never re-arms), re-checked under C12.R7",
+    "C15-12": "C02.R3 / C16.R7 at once; **C15 missed**; the dequantizer rule is re-checked under C15.R14 (the reference side of `AWQ == standard representation`)",
 }
 
 
